@@ -35,11 +35,12 @@ RULE = ('exhaustive histories up to length 4 (thorough: 5) over the alphabet {in
         'prefix followed by a syntax error: raises ParsingException, nothing is accepted)} + {mut k m : k in {0,1}, '
         'm in a fixed list of 10 mutations} + 3 clone operations, and of length 5 (thorough: 6) over a reduced alphabet of 5 mutations, on a '
         'fixed two-class scenario, only histories with a build whose mutations target an already built metamodel; '
-        'plus random histories of length <= 12 over '
+        'plus random histories of length <= 12 (builds with their own IntegerGenerator or with none; some with a row that cannot be populated, so that every later build is rejected) over '
         'generated schemas and populations (some with a class whose rows are read before its CREATE TABLE, so that earlier builds infer it) with randomly chosen mutations. Non-trivial = at least two metamodels were '
         'built and a mutation changed one of them; distinct = distinct (chunks, history)')
 EXHAUSTIVE = {'quick': True, 'thorough': True}
-ASSUMPTIONS = ['every build gets its own IntegerGenerator (a generator object handed to two builds is shared by the caller)',
+ASSUMPTIONS = ['a build is given its own IntegerGenerator, or none (the metamodel then makes its own generator, whose random ids are '
+               'not compared; a generator object handed to two builds is shared by the caller)',
                'mutations are applied through the public API of the built metamodel only',
                'the aliasing probe follows lists, tuples, dicts, sets, OrderedSets and the __dict__ of xtuml objects; '
                'classes, functions and modules are not followed']
@@ -137,7 +138,7 @@ def _simulate(chunks, ops):
                         cnt[s['kind']] = cnt.get(s['kind'], 0) + 1
                     elif s['t'] == 'cls':
                         cnt.setdefault(s['kind'], 0)
-            metas.append({'cnt': cnt, 'dead': set(), 'edited': False})
+            metas.append({'cnt': cnt, 'dead': set(), 'edited': False, 'default': len(op) > 1})
         elif op[0] == 'mut' and op[1] < len(metas):
             m, mut = metas[op[1]], op[2]
             if mut[0] in ('new', 'new-args') and mut[1] in m['cnt']:
@@ -182,6 +183,12 @@ def _random_case(rng, maxlen):
                      {'t': 'insert', 'kind': 'KL', 'names': None, 'vals': [['i', 8], ['s', '']], 'lex': ['8', "''"]}]
         chunks[rng.randrange(len(chunks))].extend(late_rows[:rng.randint(1, 2)])
         chunks.append([{'t': 'cls', 'kind': 'KL', 'attrs': [['l0', 'INTEGER'], ['l1', 'STRING']]}])
+    elif r < 0.52:
+        # ... or a row that cannot be populated (a named INSERT with more values than names): every build from then on
+        # is rejected while populating the instances — and must leave the loader's statements as they are
+        c0 = classes[0]
+        chunks.insert(rng.randint(1, len(chunks)),
+                      [{'t': 'insert', 'kind': c0['kind'], 'names': [c0['attrs'][0][0]], 'vals': [['i', 1], ['i', 2]], 'lex': ['1', '2']}])
     refs = {}
     for a in assocs:
         refs.setdefault(a['sk'], set()).update(a['skeys'])
@@ -202,7 +209,8 @@ def _random_case(rng, maxlen):
             ops.append(['reject', rng.randrange(2)])
             continue
         if r < 0.47:
-            ops.append(['build'])
+            # some builds name no id generator: the metamodel then makes its own
+            ops.append(['build', 'default'] if rng.random() < 0.25 else ['build'])
             continue
         k = rng.randrange(len(metas))
         cnt = metas[k]['cnt']
@@ -227,7 +235,8 @@ def _random_case(rng, maxlen):
                 ops.append(['mut', k, ['new-args', kind, vals]])
                 continue
         if m == 'clone':
-            srcs = [j for j, mj in enumerate(metas) if not mj['edited'] and mj['cnt'].get(kind)]
+            # (instances of a metamodel with its own generator may carry random ids: not cloned into another one)
+            srcs = [j for j, mj in enumerate(metas) if not mj['edited'] and mj['cnt'].get(kind) and (not mj['default'] or j == k)]
             if not srcs or kind not in cnt:
                 m = 'new'
             else:
@@ -568,6 +577,7 @@ def run_impl(case):
     loader = _x.ModelLoader()
     accepted = []
     handles = []
+    defaults = set()       # metamodels built without naming a generator (random ids: masked in the observation)
     obs = []
     changed_some = False
     stats = {'fam_' + case['fam']: 1, 'ops': len(case['ops'])}
@@ -599,8 +609,9 @@ def run_impl(case):
             except _x.ParsingException:
                 pass
         elif op[0] == 'build':
+            default_gen = len(op) > 1          # ['build', 'default']: no generator named, the metamodel makes its own
             try:
-                m = loader.build_metamodel(_x.IntegerGenerator())
+                m = loader.build_metamodel() if default_gen else loader.build_metamodel(_x.IntegerGenerator())
             except _DOC:
                 m = None
                 res = Sym('error')
@@ -610,16 +621,25 @@ def run_impl(case):
                 if m is not None and other.m is m:
                     fail('build-returns-same-object', 'build number %d returned the very object of build number %d' % (len(handles), j))
             handles.append(h)
+            if default_gen:
+                defaults.add(len(handles) - 1)
+            # the id generators of two builds are distinct objects (the caller passed none twice)
+            for j, other in enumerate(handles[:-1]):
+                if m is not None and other.m is not None and other.m.id_generator is m.id_generator:
+                    fail('shared-id-generator', 'build number %d hands out ids from the generator object of build number %d: '
+                         'creating instances in one metamodel shifts the ids of the other' % (len(handles) - 1, j))
             # D: equals what a fresh loader builds from the chunks accepted so far
             fl = _x.ModelLoader()
             for t in accepted:
                 fl.input(t)
             try:
-                fm = fl.build_metamodel(_x.IntegerGenerator())
+                fm = fl.build_metamodel() if default_gen else fl.build_metamodel(_x.IntegerGenerator())
             except _DOC:
                 fm = None
             fh = Handle(fm)
-            if dump(fh) != dump(h) or ser(fh) != ser(h):
+            # (a metamodel that made its own generator draws random ids: the next id is not compared)
+            if (dump(fh)[:2] != dump(h)[:2] if default_gen and m is not None and fm is not None else dump(fh) != dump(h)) \
+                    or ser(fh) != ser(h):
                 fail('later-build-differs', 'build number %d differs from the build of a fresh loader fed the same %d input(s): %s vs %s'
                      % (len(handles) - 1, len(accepted), dumps(dump(h))[:600], dumps(dump(fh))[:600]))
             _probe_sharing(loader, handles, fail, stats)
@@ -653,6 +673,11 @@ def run_impl(case):
             if now != sig:
                 if op[0] == 'input' and o is loader.statements and isinstance(sig, list) and now[:len(sig)] == sig:
                     continue
+                if op[0] == 'build' and o is loader.statements:
+                    fail('build-edits-statements', 'step %d: build_metamodel (result %s) changed the loader\'s list of accepted '
+                         'statements (%d -> %d): later builds differ from a fresh loader fed the same input'
+                         % (step, res, len(sig) if isinstance(sig, list) else -1, len(now) if isinstance(now, list) else -1))
+                    break
                 if op[0] == 'reject' and o is loader.statements:
                     fail('rejected-input-kept', 'step %d: the input call raised ParsingException, but %d statement(s) of its text '
                          'stayed in the loader (the metamodels built later contain input that was never accepted)'
@@ -662,7 +687,7 @@ def run_impl(case):
                      'step %d (%s) wrote an object (%s, reached as %s from %s) that the step\'s target does not own'
                      % (step, dumps(_enc_op(op, case)), type(o).__name__, role, root))
                 break
-        obs.append([res] + [_digest(a[0]) for a in after])
+        obs.append([res] + [Sym('own-generator') if j in defaults else _digest(a[0]) for j, a in enumerate(after)])
     nontrivial = len([h for h in handles if h.m is not None]) >= 2 and changed_some
     return {'obs': obs, 'd_fail': fails, 'nontrivial': nontrivial,
             'key': dumps([_enc_op(o, case) for o in case['ops']]) + '|' + str(hash(repr(chunks))),
@@ -738,7 +763,10 @@ def model_line(case):
 
 
 def model_obs(case, ans):
-    return [[st[0]] + [_digest(_unify_ints(d)) for d in st[1:]] for st in ans]
+    builds = [op for op in case['ops'] if op[0] == 'build']
+    defaults = set(j for j, op in enumerate(builds) if len(op) > 1)
+    return [[st[0]] + [Sym('own-generator') if j in defaults else _digest(_unify_ints(d)) for j, d in enumerate(st[1:])]
+            for st in ans]
 
 
 def shrink_candidates(case):
